@@ -99,6 +99,26 @@ Theorem C17_heap_safe : forall env uenv ops, h_run false env uenv ops = Some (ru
 Proof. exact heap_safe. Qed.
 Print Assumptions C17_heap_safe.
 
+(* tickit_unref from a callback.  The documentation lets the application manage the instance by
+   reference count and says nothing against dropping the last reference from a callback; the
+   library used to destroy the instance on the spot -- under the running tickit_evloop_invoke_timers,
+   which went on to read the freed instance (finding, corpus/C17/drop.case).  With
+   fixes/C18-tick-holds-reference.patch tickit_tick / tickit_run hold a reference of their own:
+   the instance dies when the tick returns, after everything the tick owed has run (runx, h_runx:
+   the script ends there).  The running queues are empty at that point, so for EVERY script, with
+   drops from any callback, from UNBIND notifications or between ticks, the heap model reads no
+   freed node, leaks none, and logs what the list model logs *)
+Theorem C17_heap_safe_drop : forall env uenv ops, h_runx false env uenv ops = Some (runx false env uenv ops, true).
+Proof. exact heap_safe_x. Qed.
+Print Assumptions C17_heap_safe_drop.
+
+(* for scripts in which nobody drops the instance runx is run (so C17_refines and the rest apply) *)
+Theorem C17_runx_is_run : forall bug env uenv,
+  (forall cb, Forall nodrop (env cb)) -> (forall cb, Forall nodrop (uenv cb)) ->
+  forall ops, Forall op_nodrop ops -> runx bug env uenv ops = run bug env uenv ops.
+Proof. exact runx_nodrop. Qed.
+Print Assumptions C17_runx_is_run.
+
 (* the heap model is not blind: with the seeded order of cancel_watch_in (unlink after the
    UNBIND notification, seeded-ports/C17-3.diff) it leaks on the script on which the seeded
    library leaks, with the log the seeded library prints *)
